@@ -256,7 +256,11 @@ func (s *Store[H]) GetByHeight(ctx context.Context, height uint64) (H, error) {
 	// if the requested 'height' was not yet published
 	// we subscribe to it
 	verifhook.At("store.GetByHeight.beforeWait")
-	err := s.heightSub.Wait(ctx, height)
+	err := s.heightSub.waitFor(ctx, height, func() bool {
+		// the header may have been stored after the lookup above, but before we subscribed
+		_, err := s.getByHeight(ctx, height)
+		return err == nil
+	})
 	if err != nil && !errors.Is(err, errElapsedHeight) {
 		return zero, fmt.Errorf("awaiting header %d with head %d: %w", height, s.Height(), err)
 	}
